@@ -47,7 +47,7 @@ def units(tier, seed):
             us.append({"kind": "tree-create", "spec": spec, "decider": "pt", "depth_off": 0, "horizon": 40,
                        "max_execs": 400 if tier == "quick" else 5000})
     small = [s for s in fam if s["name"].split(":")[0] in
-             ("S1", "S2", "S3", "S5", "S6", "S7", "S8", "S9", "S10", "S11", "S12", "S13", "S14", "S15", "S16", "S17", "S18", "S19", "S20", "S21", "S22", "S23", "S24", "S26")]
+             ("S1", "S2", "S3", "S5", "S6", "S7", "S8", "S9", "S10", "S11", "S12", "S13", "S14", "S15", "S16", "S17", "S18", "S19", "S20", "S21", "S22", "S23", "S24", "S26", "S27", "S28", "S29")]
     small += [s for s in fam if s["name"].startswith(("F1:", "G1:")) and s["name"].count(",") == 0]
     if tier != "quick":
         small += [s for s in fam if s["name"].startswith(("F2:", "F3:", "G3:"))]
@@ -62,6 +62,10 @@ def units(tier, seed):
                        "max_states": 25 if tier == "quick" else 80,
                        "max_execs_per_op": 60 if tier == "quick" else 300})
     us += search_units(tier)
+    shapes = {s["name"].split(":")[0]: s for s in G.family_shapes()}
+    for a, b in (("S1", "S2"), ("S5", "S1"), ("S2", "S9"), ("S12", "S5")):
+        for rep in ("tree",):  # CooperativeGP re-injects phenotypes, which only the tree representation accepts
+            us.append({"kind": "coop", "spec": shapes[a], "spec2": shapes[b], "rep": rep, "max_dev": 1, "max_execs": 40 if tier == "quick" else 400})
     us += [u for u in P.standard_units(tier, [], with_pt=False) if u.get("reannotate")]
     return us
 
@@ -174,9 +178,82 @@ def nontrivial(t) -> bool:
     return False
 
 
+def run_coop(unit) -> UnitResult:
+    """CooperativeGP: two species over two grammars with different start symbols; what the scoring function receives in
+    each position, and what search() returns, is well-typed for the grammar of that position."""
+    from geneticengine.algorithms.gp.cooperativegp import CooperativeGP
+    from geneticengine.evaluation.budget import EvaluationBudget
+    from mc.explorer import ExploreStats, explore, gene_domain
+    from checks.common import make_rep
+
+    r = UnitResult()
+    P.patch_stack_horizon()
+    b1, b2 = G.build(unit["spec"]), G.build(unit["spec2"])
+    try:
+        g1, g2 = b1.extract(), b2.extract()
+        v1, v2 = R.SpecView(unit["spec"]), R.SpecView(unit["spec2"])
+        t1, t2 = ["ref", unit["spec"]["start"]], ["ref", unit["spec2"]["start"]]
+        rep_kind = unit["rep"]
+        skw = {"wide_domain": gene_domain(P.GENES)} if rep_kind == "ge" else {}
+
+        def run(src):
+            got = []
+
+            def score(x, y):
+                got.append((x, y))
+                return float((len(repr(x)) * 3 + len(repr(y))) % 5)
+
+            d1, d2 = g1.get_min_tree_depth() + 1, g2.get_min_tree_depth() + 1
+            coop = CooperativeGP(g1, g2, score, representation1=make_rep(rep_kind, g1, src, d1, gene_length=5),
+                                 representation2=make_rep(rep_kind, g2, src, d2, gene_length=5),
+                                 population1_size=2, population2_size=3, coevolutions=2, random=src,
+                                 kwargs1={"budget": EvaluationBudget(3)}, kwargs2={"budget": EvaluationBudget(4)})
+            run.got = got
+            return coop.search()
+
+        st = ExploreStats()
+        for ex in explore(run, max_dev=unit["max_dev"], max_execs=unit["max_execs"], horizon=8000, stats=st, source_kwargs=skw):
+            r.executions += 1
+            w = {"unit": _clean(unit), "choices": list(ex.choices)}
+            if ex.capped:
+                continue
+            if ex.exc is not None:
+                if not is_library_error(ex.exc):
+                    r.add_violation(Violation(PROP, f"CooperativeGP.search[{rep_kind}]", "foreign-exception",
+                                              {"exc": type(ex.exc).__name__, "at": exc_site(ex.exc), "rep": rep_kind}, w,
+                                              f"{unit['spec']['name']} x {unit['spec2']['name']}: {exc_brief(ex.exc)}"))
+                continue
+            pairs = list(getattr(run, "got", [])) + [tuple(ex.result)]
+            bad = None
+            for x, y in pairs:
+                r.count("fitness_function_arguments_checked", 2)
+                e1 = R.check_value(v1, x, t1, g1, what=("type",))
+                e2 = R.check_value(v2, y, t2, g2, what=("type",))
+                if e1 or e2:
+                    bad = (1, e1[0], x) if e1 else (2, e2[0], y)
+                    break
+            r.count("cooperative_runs")
+            r.nontrivial += 1
+            if bad:
+                pos, e, v = bad
+                r.add_violation(Violation(PROP, f"CooperativeGP.search[{rep_kind}]", "species-got-ill-typed:" + e[0], {"position": pos, "rep": rep_kind},
+                                          dict(w, program=R.show(R.term(v))[:200]),
+                                          f"{unit['spec']['name']} x {unit['spec2']['name']}: the program in position {pos} is not a program of grammar {pos}: "
+                                          f"at {e[1]}: {e[2]}"))
+        r.states = st.executions
+        r.truncated = st.truncated
+        r.samples.append({"cooperative": [unit["spec"]["name"], unit["spec2"]["name"]], "rep": rep_kind, "runs": st.executions})
+    finally:
+        b1.cleanup()
+        b2.cleanup()
+    return r
+
+
 def run_unit(unit) -> UnitResult:
     if unit["kind"] == "search":
         return run_search(unit)
+    if unit["kind"] == "coop":
+        return run_coop(unit)
     r = UnitResult()
     ctx = P.open_ctx(unit)
     try:
